@@ -43,6 +43,7 @@ func main() {
 		},
 		kong.UsageOnError(),
 		kongutil.OutputFileMapper,
+		kongutil.ExistingDirMapper,
 		kongutil.BinSizeMapper,
 	)
 	ctx, err := k.Parse(translateArgs(os.Args[1:]))
